@@ -113,6 +113,22 @@ static int tr_vscanf(const char *fmt, ...) { va_list ap; va_start(ap, fmt); int 
 static int tr_vswscanf(const wchar_t *b, const wchar_t *fmt, ...) { va_list ap; va_start(ap, fmt); int r = vswscanf_s(b, fmt, ap); va_end(ap); return r; }
 static int tr_vfwscanf(FILE *f, const wchar_t *fmt, ...) { va_list ap; va_start(ap, fmt); int r = vfwscanf_s(f, fmt, ap); va_end(ap); return r; }
 static int tr_vwscanf(const wchar_t *fmt, ...) { va_list ap; va_start(ap, fmt); int r = vwscanf_s(fmt, ap); va_end(ap); return r; }
+/* ---- C11: variadic calls with any number / classes of arguments through libffi ---- */
+#include <ffi.h>
+static long ffi_var(void *fn, int has_first, void *first) {
+    ffi_cif cif; ffi_type *types[MAXARG + 2]; void *vals[MAXARG + 2]; static uint64_t store[MAXARG + 2]; int n = 0;
+    if (has_first) { types[n] = &ffi_type_pointer; store[n] = (uint64_t)(uintptr_t)first; vals[n] = &store[n]; n++; }
+    int nfixed = n + vstart;
+    for (int i = 0; i < nargs; i++) {
+        if (args[i].tag == 'V') { nfixed = n; continue; }
+        if (args[i].tag == 'F') { types[n] = &ffi_type_double; vals[n] = &args[i].d; }
+        else if (args[i].tag == 'G') { types[n] = &ffi_type_longdouble; vals[n] = &args[i].L; }
+        else { types[n] = (args[i].tag == 'P' || args[i].tag == 'N') ? &ffi_type_pointer : &ffi_type_uint64; store[n] = args[i].u; vals[n] = &store[n]; }
+        n++;
+    }
+    if (ffi_prep_cif_var(&cif, FFI_DEFAULT_ABI, nfixed, n, &ffi_type_sint, types) != FFI_OK) return -999999;
+    ffi_arg rv = 0; ffi_call(&cif, (void (*)(void))fn, &rv, vals); return (long)(int)rv;
+}
 /* captured stream output of the current case */
 static char cap[1 << 16]; static size_t caplen; static int have_cap;
 /* comparator for qsort_s/bsearch_s: unsigned bytewise over the element size in *ctx, checks its pointers */
